@@ -201,6 +201,7 @@ def run_case(case):
                 add("reordered_twins_processed_before")
             except Exception:  # noqa: BLE001 - the twin is not under test
                 add("reordered_twin_failed")
+            seen.clear()  # W1 recorded the twin's spaces: only the judged model's are compared
         f, _ = pipeline.get_lcm_function(model, "solve")
         out = pipeline.to_np_list(f(dsl.lcm_params(params)))
     except Exception as e:  # noqa: BLE001
